@@ -137,6 +137,7 @@ func genStorageRing(g *gen) {
 		}
 		g.emit("S consumer %s %s", c, grp)
 	}
+	g.emit("S kept")
 }
 
 func genStorageGeneral(g *gen) {
@@ -264,6 +265,7 @@ func genStorageGeneral(g *gen) {
 		}
 	}
 	fetchAll()
+	g.emit("S kept")
 }
 
 type storageRunner struct {
@@ -278,6 +280,12 @@ type storageRunner struct {
 	concWorkers int
 	lastBroker  []*protocol.StorageRequest
 	hold        chan struct{} // fault injection: serve() stops taking requests until released
+	kept        []keptReply   // consumer detail replies handed out since init, with what they said then
+}
+
+type keptReply struct {
+	reply protocol.ConsumerTopics
+	text  string
 }
 
 // serve answers storage requests arriving on the application's storage channel (as the storage
@@ -465,6 +473,7 @@ func (s *storageRunner) step(r *runner, line string) {
 	f := strings.Split(line, " ")
 	switch f[1] {
 	case "init":
+		s.kept = nil
 		allow, deny := unhexName(f[5]), unhexName(f[6])
 		s.allow, s.deny = nil, nil
 		if allow != "" {
@@ -587,7 +596,7 @@ func (s *storageRunner) step(r *runner, line string) {
 		}
 		s.ev.AgeCache(time.Duration(atoi(f[2])) * time.Millisecond)
 		r.reply("ok")
-	case "cq", "cqslow":
+	case "cq", "cqslow", "cqdup":
 		// S cq <cluster> <group> <showall>: a status request through the persistent evaluator (cache)
 		// S cqslow …: the same while storage is slow to accept the evaluator's fetch (resolved as a plain cq)
 		now := stableNow()
@@ -598,6 +607,8 @@ func (s *storageRunner) step(r *runner, line string) {
 		before := atomic.LoadInt64(&s.served)
 		req := &protocol.EvaluatorRequest{Cluster: unhexName(f[2]), Group: unhexName(f[3]), ShowAll: f[4] == "1", Reply: make(chan *protocol.ConsumerGroupStatus, 1)}
 		slow := f[1] == "cqslow"
+		dup := f[1] == "cqdup"
+		dupVerdict := ""
 		ticked := false
 		res := guard(func() string {
 			if slow {
@@ -620,6 +631,28 @@ func (s *storageRunner) step(r *runner, line string) {
 				now = time.Now().Unix()
 				before = atomic.LoadInt64(&s.served)
 				s.hold <- struct{}{}
+			} else if dup {
+				// S cqdup: a second request for the same group arrives while the first one's evaluation is waiting for storage
+				if s.hold == nil {
+					s.hold = make(chan struct{})
+				}
+				wait := 300 * time.Millisecond
+				if ns := t.Add(wait).Nanosecond(); ns > 880000000 || ns < 30000000 {
+					wait += 170 * time.Millisecond
+				}
+				s.ev.AgeCache(-wait)
+				s.evRef = s.evRef.Add(wait)
+				req2 := &protocol.EvaluatorRequest{Cluster: req.Cluster, Group: req.Group, ShowAll: req.ShowAll, Reply: make(chan *protocol.ConsumerGroupStatus, 1)}
+				s.app.StorageChannel <- nil
+				go s.ev.GetConsumerStatus(req)
+				time.Sleep(100 * time.Millisecond)
+				go s.ev.GetConsumerStatus(req2)
+				time.Sleep(wait - time.Since(t))
+				now = time.Now().Unix()
+				before = atomic.LoadInt64(&s.served)
+				s.hold <- struct{}{}
+				st2 := <-req2.Reply
+				dupVerdict = " second=" + strings.ReplaceAll(renderGroupStatus(st2), " ", "~")
 			} else {
 				s.ev.GetConsumerStatus(req)
 			}
@@ -637,12 +670,16 @@ func (s *storageRunner) step(r *runner, line string) {
 					ticked = time.Now().Unix() != now
 				}
 			}
-			return fmt.Sprintf("rc=%s rg=%s %s", hexName(st.Cluster), hexName(st.Group), renderGroupStatus(st))
+			return fmt.Sprintf("rc=%s rg=%s %s%s", hexName(st.Cluster), hexName(st.Group), renderGroupStatus(st), dupVerdict)
 		})
 		if ticked {
 			res += " tick"
 		}
-		r.resolve("S cq %d %s %s %s", now, f[2], f[3], f[4])
+		if dup {
+			r.resolve("S cqdup %d %s %s %s", now, f[2], f[3], f[4])
+		} else {
+			r.resolve("S cq %d %s %s %s", now, f[2], f[3], f[4])
+		}
 		r.reply("%s", res)
 	case "consumer":
 		now := stableNow()
@@ -658,8 +695,22 @@ func (s *storageRunner) step(r *runner, line string) {
 		case reply == nil:
 			r.reply("nil%s", tick)
 		default:
-			r.reply("%s%s", renderTopics(reply.(protocol.ConsumerTopics)), tick)
+			text := renderTopics(reply.(protocol.ConsumerTopics))
+			if len(s.kept) < 64 {
+				s.kept = append(s.kept, keptReply{reply.(protocol.ConsumerTopics), text})
+			}
+			r.reply("%s%s", text, tick)
 		}
+	case "kept":
+		// S kept: every consumer detail reply handed out since init still says what it said when it was handed out
+		r.resolve("%s", line)
+		verdict := "same"
+		for _, k := range s.kept {
+			if renderTopics(k.reply) != k.text {
+				verdict = "changed"
+			}
+		}
+		r.reply("kept=%s", verdict)
 	default:
 		if s.httpStep(r, f, line) || s.concStep(r, f, line) {
 			return
